@@ -19,19 +19,19 @@ def run(ctx, col, tier):
     col.rule("R-FLUSH", "the chain still open when the post-order accumulation returns to the "
              "outermost call (the stem of a root with one child, or a whole unbranched chain) is "
              "closed into a branch: consumed at the call site or closed by a root-specific arm",
-             floor=1)
+             floor=1, shape=True)
     col.rule("R-THRESH", "child-count predicates: furcation <=> children >= 2 in every copy of the "
              "predicate, tip <=> children = 0, pass-through <=> exactly one child (tables over "
-             "k = 0..4)", floor=6, exhaustive=True)
+             "k = 0..4)", floor=6, exhaustive=True, shape=True)
     col.rule("R-BRANCH", "branch accumulation: a pass-through node extends the open chain; any "
              "other node closes one branch per child chain (child chain + this node, reversed to "
              "run root-wards first) and opens a new chain at itself; branch views index the tree",
-             floor=3)
+             floor=3, shape=True)
     col.rule("R-PATH", "paths: every node's path is a copy of its parent's path plus itself; tips "
-             "return their own path, inner nodes the concatenation of their children's", floor=4)
+             "return their own path, inner nodes the concatenation of their children's", floor=4, shape=True)
     col.rule("R-BTREE", "branch tree: nodes are the root plus each branch's end node, each "
              "parented to the branch's start node; original branches are filed under the new id "
-             "of their start node", floor=4)
+             "of their start node", floor=4, shape=True)
     col.not_decided += ["the partition property as a statement over all trees (follows from the "
                         "clauses above for well-formed trees, not proved here)"]
 
